@@ -23,6 +23,9 @@ type emission struct {
 	text    string // emitted Cypher
 	params  map[string]any
 	refused string // non-empty: no text was produced (builder / emitter returned an error); nothing to judge
+	// reuse: non-empty when a second query built from the very same criteria values does not give the same text and
+	// parameters as the first (callers build a count query and a fetch query from one criteria value)
+	reuse string
 }
 
 func parseText(text string) (*cypher.RegularQuery, error) {
@@ -85,6 +88,29 @@ func pathNeo4jBuilder(crit func() []graph.Criteria) (e emission) {
 		params = map[string]any{}
 	}
 	e.m, e.text, e.params = side{q: ref}, text, params
+	// the same criteria values used for two builders in a row
+	_ = core.Try(func() {
+		shared := crit()
+		var texts [2]string
+		for i := range texts {
+			qb := neo4jq.NewEmptyQueryBuilder()
+			for _, c := range shared {
+				qb.Apply(c)
+			}
+			if err := qb.Prepare(); err != nil {
+				texts[i] = "error: " + err.Error()
+				continue
+			}
+			t, err := qb.Render()
+			if err != nil {
+				t = "error: " + err.Error()
+			}
+			texts[i] = t + " " + fmt.Sprint(qb.Parameters)
+		}
+		if texts[0] != texts[1] {
+			e.reuse = fmt.Sprintf("first query %q, second query from the same criteria values %q", texts[0], texts[1])
+		}
+	})
 	return
 }
 
